@@ -49,7 +49,7 @@ func c11Anchors() error {
 }
 
 func runC11(r *core.Run) {
-	r.Rule("differential comparison, bit for bit, of crypto.HashToCurve, crypto.DeriveKeysetId and nut13.DeriveKeysetPath/DeriveSecret/DeriveBlindingFactor with refcrypto (math/big + crypto/hmac, anchored on the published NUT-00/NUT-13 vectors); inputs: messages of length 0..600 incl. structured NUT-10 secrets and ones needing >= 4 counter iterations, key sets of 1..64 keys with arbitrary amounts, (seed, keyset id, counter) triples with seeds of 16/32/64 bytes, ids 00.., ff.., ids congruent 0 and -1 mod 2^31-1, counters 0,1,2^16,2^31-2,2^31-1 and random, and consecutive counter ranges; non-trivial = distinct inputs compared")
+	r.Rule("differential comparison, bit for bit, of crypto.HashToCurve, crypto.DeriveKeysetId and nut13.DeriveKeysetPath/DeriveSecret/DeriveBlindingFactor with refcrypto (math/big + crypto/hmac, anchored on the published NUT-00/NUT-13 vectors); inputs: messages of length 0..600 incl. structured NUT-10 secrets and ones needing >= 4 counter iterations, key sets of 1..64 keys with arbitrary amounts, (seed, keyset id, counter) triples with seeds of 16/32/64 bytes, ids 00.., ff.., ids congruent 0 and -1 mod 2^31-1, counters 0,1,2^16,2^31-2,2^31-1 and random, and consecutive counter ranges, plus triples searched with the reference so that a private key with a leading zero byte occurs at each depth of the path; non-trivial = distinct inputs compared")
 	r.Assume("trusted: crypto/sha256, crypto/hmac, math/big, the published vectors")
 	if err := c11Anchors(); err != nil {
 		r.Violate("reference-broken", err.Error(), "anchors", nil)
@@ -227,6 +227,105 @@ func runC11(r *core.Run) {
 			}
 		}
 	})
+
+	// ---- NUT-13, directed: private keys with leading zero bytes at every depth of the path
+	// m / 129372' / 0' / keyset' / counter' / {0,1}. Such keys are where BIP32 implementations
+	// that do not pad the parent key to 32 bytes go wrong; about one (seed, id, counter) triple
+	// in 256 has one at a given depth, so they are searched for with the reference derivation
+	// (hardened derivation costs one HMAC per level) and then compared.
+	{
+		rng := r.Rng("n13-short-keys")
+		depthName := []string{"master", "purpose", "coin", "keyset", "counter", "leaf-secret", "leaf-r"}
+		perDepth := pick(r, 4, 16)
+		found := make([]int, len(depthName))
+		for tries := 0; tries < 400000; tries++ {
+			done := true
+			for _, n := range found {
+				if n < perDepth {
+					done = false
+				}
+			}
+			if done {
+				break
+			}
+			seed := make([]byte, []int{16, 32, 64}[rng.Intn(3)])
+			rng.Read(seed)
+			id := client.RandHex(rng, 8)
+			c := uint32(rng.Int63n(1 << 31))
+			if rng.Intn(2) == 0 {
+				c = uint32(rng.Intn(100000))
+			}
+			ki, err := refcrypto.Nut13KeysetInt(id)
+			if err != nil {
+				continue
+			}
+			cur, err := refcrypto.Master(seed)
+			if err != nil {
+				continue
+			}
+			short := -1
+			keys := []refcrypto.XKey{cur}
+			ok := true
+			for _, idx := range []uint32{refcrypto.Hardened + 129372, refcrypto.Hardened, refcrypto.Hardened + ki, refcrypto.Hardened + c} {
+				cur, err = cur.Child(idx)
+				if err != nil {
+					ok = false
+					break
+				}
+				keys = append(keys, cur)
+			}
+			if !ok {
+				continue
+			}
+			ls, e1 := cur.Child(0)
+			lr, e2 := cur.Child(1)
+			if e1 != nil || e2 != nil {
+				continue
+			}
+			keys = append(keys, ls, lr)
+			for d, k := range keys {
+				if k.K.BitLen() <= 248 && found[d] < perDepth {
+					short = d
+					break
+				}
+			}
+			if short < 0 {
+				continue
+			}
+			found[short]++
+			sig := fmt.Sprintf("n13/short-%s/%x/%s/%d", depthName[short], seed[:4], id, c)
+			master, err := hdkeychain.NewMaster(seed, &chaincfg.MainNetParams)
+			if err != nil {
+				r.Violate("nut13:master-error-disagreement", fmt.Sprintf("seed %x: repository err=%v, reference derives a master key", seed, err), sig, nil)
+				continue
+			}
+			path, err := nut13.DeriveKeysetPath(master, id)
+			if err != nil {
+				r.Violate("nut13:keyset-path-error-disagreement", fmt.Sprintf("id %s: repository err=%v reference ok", id, err), sig, nil)
+				continue
+			}
+			gotS, err1 := nut13.DeriveSecret(path, c)
+			gotR, err2 := nut13.DeriveBlindingFactor(path, c)
+			r.Eval(sig, true)
+			r.Count("nut13_short_key_cases:"+depthName[short], 1)
+			if err1 != nil || err2 != nil {
+				r.Violate("nut13:error-disagreement", fmt.Sprintf("reference ok, repository errs=%v %v (short key at %s)", err1, err2, depthName[short]), sig, nil)
+				continue
+			}
+			wantS, wantR := refcrypto.Hex32(ls.K), refcrypto.Hex32(lr.K)
+			if gotS != wantS {
+				r.Violate("nut13:secret-differs", fmt.Sprintf("seed %x id %s counter %d (key with leading zero byte at %s): repository secret %s, spec %s", seed, id, c, depthName[short], gotS, wantS), sig, nil)
+			}
+			if hex.EncodeToString(gotR.Serialize()) != wantR {
+				r.Violate("nut13:blinding-factor-differs", fmt.Sprintf("seed %x id %s counter %d (key with leading zero byte at %s): repository r %x, spec %s", seed, id, c, depthName[short], gotR.Serialize(), wantR), sig, nil)
+			}
+		}
+		for d, n := range found {
+			if n == 0 {
+				r.Inconclusive("no short key found at depth " + depthName[d])
+			}
+		}
+	}
 
 	// ---- the anchored vector through the repository code too
 	seed := refcrypto.BIP39Seed("half depart obvious quality work element tank gorilla view sugar picture humble", "")
